@@ -1307,13 +1307,14 @@ fn numbers_decode(data: &[u8], sep: u8) -> impl Iterator<Item = usize> + '_ {
 
 // Decode positive integer number
 fn number_decode(data: &[u8]) -> Option<usize> {
+    // values that do not fit are clamped to `usize::MAX` instead of overflowing
     let mut result = 0usize;
-    let mut mult = 1usize;
-    for b in data.iter().rev() {
+    for b in data.iter() {
         match b {
             b'0'..=b'9' => {
-                result += (b - b'0') as usize * mult;
-                mult *= 10;
+                result = result
+                    .saturating_mul(10)
+                    .saturating_add((b - b'0') as usize);
             }
             _ => return None,
         }
